@@ -1,4 +1,5 @@
 import G3d.Props.C02b
+import G3d.Model.Source
 /-!
 # C03 — rays that clearly hit are reported, nearest crossing first (exact semantics, exact inputs)
 
@@ -241,6 +242,36 @@ theorem disk_complete {s : Disk ℝ} {ray : Ray ℝ} {t : ℝ} (oe de : V3 ℝ) 
       have : a ≤ s.phiMax := by linarith
       exact absurd hc (not_lt.2 this)
     · exact ⟨_, rfl⟩
+
+
+/-! ## distant source -/
+
+/-- **the distant source** (cone half-angle test, exact semantics): a ray "hits" it exactly when the cosine of the angle between
+    its (normalised) direction and the source's direction is at least `cos(α/2)`; the reported point is then the point of
+    the ray at the largest finite parameter — on the ray, at a positive distance -/
+theorem source_hit_iff (s : Source ℝ) (ray : Ray ℝ) (oe de : V3 ℝ) (p : V3 ℝ) :
+    s.simpleIntersectLocalRay ray oe de = some p ↔
+      s.cosHalfAlpha ≤ ray.direction.normalize.dot s.direction ∧ p = ray.project (Num.maxv : ℝ) := by
+  unfold Source.simpleIntersectLocalRay
+  simp only []
+  by_cases h : s.cosHalfAlpha ≤ ray.direction.normalize.dot s.direction
+  · have hc : (ray.direction.normalize.dot s.direction >=. s.cosHalfAlpha) = true := by bool_real; exact h
+    rw [if_pos hc]
+    constructor
+    · intro hp; injection hp with hp; exact ⟨h, hp.symm⟩
+    · rintro ⟨_, rfl⟩; rfl
+  · have hc : ¬ ((ray.direction.normalize.dot s.direction >=. s.cosHalfAlpha) = true) := by bool_real; exact not_le.1 h
+    rw [if_neg hc]
+    constructor
+    · intro hp; cases hp
+    · rintro ⟨h', _⟩; exact absurd h' h
+
+/-- nothing is reported for a ray outside the cone -/
+theorem source_miss_none (s : Source ℝ) (ray : Ray ℝ) (oe de : V3 ℝ)
+    (h : ray.direction.normalize.dot s.direction < s.cosHalfAlpha) : s.simpleIntersectLocalRay ray oe de = none := by
+  cases hr : s.simpleIntersectLocalRay ray oe de with
+  | none => rfl
+  | some p => exact absurd ((source_hit_iff s ray oe de p).1 hr).1 (not_le.2 h)
 
 
 end
